@@ -405,6 +405,14 @@ def gen_case(rng, tier):
 
 
 def gen_cases(tier, seed):
+    from . import sched
+    erng = random.Random(seed * 7919 + 1111)
+    bases = list(corpus_cases())
+    while len(bases) < 40:
+        ls = gen_case(erng, "quick")
+        if sum(1 for l in ls if l.startswith("thread")) >= 2 and len(ls) <= 30:
+            bases.append((f"gen{len(bases)}", ls))
+    yield from sched.enum_cases(PROP, HARNESS, bases, tier, os.path.join(common.BUILD, "sched-c11"))
     rng = random.Random(seed * 7919 + 11)
     for i in range(3000 if tier == "quick" else 60000):
         yield (f"rand-{i}", gen_case(rng, tier))
